@@ -25,6 +25,7 @@ from .common import install_common
 PAR = "joblib/parallel.py"
 Batch = Rec("Batch", lo=INT, hi=INT)
 LO, HI = Batch.field_fn("lo"), Batch.field_fn("hi")
+FROM_SLICE = z3.Function("batch_from_pre_dispatch_slice", Batch.sort(), z3.BoolSort())
 QEMPTY = None
 
 
@@ -214,6 +215,7 @@ def build():
         n = ops.as_int_term(v.attrs["n"])
         taken, total = G(interp, "TAKEN"), G(interp, "INPUTLEN")
         it = v.attrs["it"]
+        ctx.ghost["PULLED_THROUGH"] = it
         limit = total
         if isinstance(it, Opaque) and it.tag == "limited":
             limit = z3.If(G(interp, "LIMIT") < total, G(interp, "LIMIT"), total)
@@ -257,6 +259,10 @@ def build():
             raise Unsupported("BatchedCalls over %r" % (seg,))
         b = Batch.fresh(interp.ctx, "batch")
         interp.ctx.assume(z3.And(LO(b.term) == seg.lo, HI(b.term) == seg.hi))
+        # ghost: was the batch sliced through the calling thread's pre_dispatch slice, or from the input itself by a callback?
+        it = interp.ctx.ghost.get("PULLED_THROUGH")
+        if it is not None:
+            interp.ctx.assume(FROM_SLICE(b.term) == z3.BoolVal(isinstance(it, Opaque) and it.tag == "limited"))
         return b
 
     p.models["new:BatchedCalls"] = new_batch
@@ -337,6 +343,9 @@ def build():
             "false_means_nothing_left_or_aborting": "implies(not result and not old(self._aborting), n_events('submit') == 0 and n_events('queue.get') == 0 and TAKEN == at_acquire('TAKEN'))",
             "false_means_the_iterator_was_found_exhausted": "implies(not result and not old(self._aborting), n_events('pull') == 1 and pulled() == 0 and exhausted(iterator) "
                                                             "and queue_is_empty(self))",
+            # C09 "no more than the pre-dispatched number of batches is in flight": what the calling thread's slice loop dispatches was sliced
+            # through that slice (known finding K21: the look-ahead queue is shared with the callbacks)
+            "the_calling_threads_slice_loop_only_dispatches_its_own_slice": "implies(is_tag(iterator, 'limited') and n_events('submit') == 1, from_slice(submitted()[0]))",
             "false_on_the_input_itself_means_done": "implies(not result and not old(self._aborting), DONE or (is_tag(iterator, 'limited') and TAKEN >= LIMIT))",
             # C04: a failing input iterator is turned into a failed job of this call and the retrieval loop keeps running
             "iterator_failure_is_never_swallowed": "implies(iterator_raised(), n_events('register_outcome') == 1 and result)",
@@ -362,7 +371,10 @@ def build():
         return ops.mk_bool(taken >= total)
 
     p.spec_funcs["exhausted"] = exhausted
+    p.spec_funcs["from_slice"] = lambda interp, b: ops.mk_bool(FROM_SLICE(b.term))
     p.spec_funcs["queue_is_empty"] = lambda interp, me: ops.mk_bool(me.fields["_ready_batches"].head == me.fields["_ready_batches"].tail)
+    p.contracts[[k for k in p.contracts if k[1] == "Parallel.dispatch_one_batch"][0]].clause_props = {
+        "the_calling_threads_slice_loop_only_dispatches_its_own_slice": ["C09"]}
     p.spec_funcs["iterator_raised"] = lambda interp: any(e[0] == "pull" and e[2] == "raised" for e in interp.ctx.events)
 
     # ---- dispatch_next / _start use dispatch_one_batch through its contract (summary: returns a bool, may dispatch one batch)
